@@ -134,6 +134,17 @@ func parseArgsWithExpiration(args map[string]any, defaultHandler func(name strin
 			if n <= 0 {
 				return
 			}
+			// a relative time is converted to a duration in nanoseconds: refuse what does not fit
+			switch name {
+			case "expiration.seconds", "seconds":
+				if n > math.MaxInt64/int64(time.Second) {
+					return
+				}
+			case "expiration.milliseconds", "milliseconds":
+				if n > math.MaxInt64/int64(time.Millisecond) {
+					return
+				}
+			}
 		}
 	}
 
@@ -144,7 +155,7 @@ func parseArgsWithExpiration(args map[string]any, defaultHandler func(name strin
 		case "expiration.milliseconds", "milliseconds":
 			expiration = now.Add(time.Millisecond*time.Duration(arg.(int64)) - time.Nanosecond)
 		case "expiration.unix-time-seconds":
-			expiration = time.Unix(arg.(int64), 0).Add(time.Duration(now.Nanosecond()) - time.Nanosecond)
+			expiration = time.Unix(arg.(int64), 0).Add(-time.Nanosecond)
 		case "expiration.unix-time-milliseconds":
 			n := arg.(int64)
 			expiration = time.Unix(n/1000, (n%1000)*(1000*1000))
